@@ -204,7 +204,7 @@ Proof. intros Hs. apply kq_upd; [apply idp_cstate|]. intros _ c _ _. exact Hs. Q
 Lemma recv_cer_c cid n j m : cres cid n (recv_cer n j m).
 Proof.
   unfold recv_cer. destruct (get_conn n j) as [c0|] eqn:Hc0; [|apply cres_refl].
-  destruct (cstate_eqb (c_state c0) SConnected) eqn:Es; cbn [negb]; [|apply cres_refl].
+  destruct (cstate_eqb (c_state c0) SConnected) eqn:Es; cbn [negb]; [|apply cres_nil, kq_same; reflexivity].
   apply cstate_eqb_eq in Es.
   assert (St : stc j n) by (intros c Hc; congruence).
   destruct (pres_get (m_origin m)) as [host|]; [|apply cres_refl].
